@@ -188,6 +188,14 @@ theorem autosort_reach (lt : K × V → K × V → Bool) (sw : StrictWeak lt) (o
 theorem reposition_restores (lt : K × V → K × V → Bool) (sw : StrictWeak lt) (tb : Tab K V) (h : tb.Inv) (k : K)
     (hs : Sorted lt (erase tb.m k)) : Sorted lt (tb.apply (some lt) (.reposition k)).m := sorted_reposition sw k h.1 hs
 
+/-- With the hook that honours the flag (`respectFlag`: the repair proposed for finding R3), a `Put` on an existing
+    key of a table whose auto-sort is switched off leaves the iteration order alone, as `SetAutoSortEnabled`
+    documents; `Tab.respectFlag = false` is the code as it stands (the entry is re-positioned regardless). -/
+theorem put_existing_autosort_off (lt? : Option (K × V → K × V → Bool)) (tb : Tab K V) (hr : tb.respectFlag = true)
+    (ha : tb.autoSort = false) (k : K) (v : V) (hk : k ∈ keys tb.m) :
+    keys (tb.apply lt? (.put k v)).m = keys tb.m := by
+  simp [Tab.apply, Tab.putAux, Tab.valueChanged, has_iff.mpr hk, hr, ha]
+
 /-! ## Iterators never dangle -/
 
 /-- The invariant is preserved by every operation of the public API (put variants, positional puts, removals,
